@@ -26,6 +26,9 @@ G 1
 """
 MOLT = {"P": [("A", ["a1"]), ("B", ["b1", "b2"]), ("A", ["a1"]), ("B", ["b1", "b2"])], "G": G_TEXT, "S": [("S", ["s1"])]}
 LAYOUT = [("P", 2), ("S", 1), ("G", 1), ("P", 1)]        # molecule indices: P 0,1  S 2  G 3  P 4
+# the same plus a ligand of three residues (molecule index 5)
+MOLT_L = dict(MOLT, L=[("X", ["x1"]), ("Y", ["y1"]), ("X", ["x1"])])
+LAYOUT_L = LAYOUT + [("L", 1)]
 
 
 def make_top():
@@ -230,7 +233,7 @@ def split(sx, B):
 @condition("C18.ligands",
            anchors=["polyply.src.annotate_ligands:AnnotateLigands._connect_ligands_to_molecule", "polyply.src.annotate_ligands:AnnotateLigands.split_ligands",
                     "polyply.src.annotate_ligands:AnnotateLigands.run_system"],
-           rejects=(IOError,), selector_only=True, must_cover=["attached", "handed back", "resid 0"], allow_all_rejected=False,
+           rejects=(IOError,), selector_only=True, must_cover=["attached", "handed back", "resid 0", "one residue of a larger ligand"], allow_all_rejected=False,
            outside=["placement itself (one step from the residue grown from: C05/C17)"],
            bounds={"quick": dict(), "thorough": dict()})
 def ligands(sx, B):
@@ -241,14 +244,24 @@ def ligands(sx, B):
     target_mol = sx.sel("target_molecule", [("P", None), ("P", 0), (None, 4), ("G", 3)])
     target_res = sx.sel("target_residue", [("A", 1), ("B", 2), ("A", 3), ("A", 0)])
     zero_based = target_res[1] == 0
-    top = make_top()
+    ligand = sx.sel("ligand", [(2, None), (5, ("Y", 2)), (5, ("X", 3))])
+    top = topology_from_text(top_text(MOLT_L, LAYOUT_L, atomtypes=("A", "B", "C", "S", "X", "Y")))
     if zero_based:
         for m in top.molecules:
             for n in m.nodes:
                 m.nodes[n]["resid"] -= 1
         sx.cover("resid 0")
     molspec = (target_mol[0] or "") + ("#%d" % target_mol[1] if target_mol[1] is not None else "") + "-%s#%d" % target_res
-    ligspec = "S#2"
+    lig_idx, lig_res = ligand
+    if lig_res is None:
+        ligspec = "S#2"
+        lnode = next(iter(top.molecules[2].nodes))
+    else:
+        # one residue of a ligand that has several, not the first one
+        ligspec = "L#5-%s#%d" % (lig_res[0], lig_res[1] - (1 if zero_based else 0))
+        lnode = [n for n in top.molecules[5].nodes if top.molecules[5].nodes[n]["resname"] == lig_res[0]
+                 and top.molecules[5].nodes[n]["resid"] == lig_res[1] - (1 if zero_based else 0)][0]
+        sx.cover("one residue of a larger ligand")
     names_before = [m.mol_name for m in top.molecules]
     nodes_before = {mi: {n: dict(m.nodes[n]) for n in m.nodes} for mi, m in enumerate(top.molecules)}
     expected = []      # (molecule index, node) that get a ligand; only one ligand molecule exists
@@ -270,7 +283,7 @@ def ligands(sx, B):
                  molspec, new, [sorted(m.neighbors(x)) for x in new], node, mi))
     if len(new) != 1:
         return
-    sx.claim(m.nodes[new[0]].get("build") is True and m.nodes[new[0]].get("ligated") == (2, next(iter(top.molecules[2].nodes))),
+    sx.claim(m.nodes[new[0]].get("build") is True and m.nodes[new[0]].get("ligated") == (lig_idx, lnode),
              "the attached node is built and remembers the ligand it stands for")
     for mj, mm in enumerate(top.molecules):
         extra = [n for n in mm.nodes if n not in nodes_before[mj]]
@@ -280,13 +293,16 @@ def ligands(sx, B):
     m.nodes[new[0]]["position"] = pos
     ann.split_ligands()
     sx.cover("handed back")
-    lnode = next(iter(top.molecules[2].nodes))
-    sx.claim(bool(np.array_equal(top.molecules[2].nodes[lnode].get("position"), pos)), "the position is handed back to the ligand's own molecule")
+    sx.claim(bool(np.array_equal(top.molecules[lig_idx].nodes[lnode].get("position"), pos)),
+             "the position is handed back to the named residue of the ligand's own molecule",
+             lambda: "%s: positions in the ligand molecule %r" % (ligspec, {n: top.molecules[lig_idx].nodes[n].get("position") for n in top.molecules[lig_idx].nodes}))
+    sx.claim(all("position" not in top.molecules[lig_idx].nodes[n] for n in top.molecules[lig_idx].nodes if n != lnode),
+             "no other residue of the ligand receives a position")
     sx.claim([mm.mol_name for mm in top.molecules] == names_before, "molecule list unchanged in content and order")
     for mj, mm in enumerate(top.molecules):
         sx.claim(set(mm.nodes) == set(nodes_before[mj]), "attached nodes are removed again", lambda: "molecule %d: %r" % (mj, sorted(mm.nodes)))
         for n in mm.nodes:
-            if mj == 2:
+            if mj == lig_idx and n == lnode:
                 continue
             sx.claim({k: v for k, v in mm.nodes[n].items()} == nodes_before[mj][n], "other residues keep their attributes")
 
